@@ -34,7 +34,10 @@ def showBufs (bs : List Buf) : String := ",".intercalate (bs.map fun b => hexOf 
 
 def parseDrv (s : String) : Drv := if s = "uring" then .uring else .poll
 
-def flagStr (trunc : Bool) : String := if trunc then "t" else "-"
+def flagStr (flags : Nat) : String :=
+  let t := flags % 64 ≥ 32
+  let c := flags % 16 ≥ 8
+  if t ∧ c then "tc" else if t then "t" else if c then "c" else "-"
 
 /-- `AncillaryBuf::<64>::new()`: zeroed, nothing recorded -/
 def ctlBuf : Buf := ⟨.vec, List.replicate 64 0, 0, 64⟩
@@ -90,8 +93,8 @@ def multiSubs (drv : Drv) (cap : Nat) (q : Bytes) (shut : Bool) : List Sub :=
     cs.map (fun c => Sub.op [⟨.ok c.length, false, some c⟩])
       ++ (if shut then [Sub.op [⟨.ok 0, false, some []⟩]] else [])
 
-/-- pull tokens until `want` bytes were collected or the stream ended -/
 open Compio.MultiStream in
+/-- pull tokens until `want` bytes were collected or the stream ended -/
 def drainMulti : Nat → Stream → Nat → Bytes → Bytes × Bool
   | 0, _, _, acc => (acc, false)
   | fuel + 1, s, want, acc =>
@@ -133,7 +136,7 @@ def lockStep (s : LState) (w : List String) : LState × String :=
       else if kind = "msg" ∨ kind = "msgvec" then
         let c : Comp := ⟨n, 0, [], 0, 0⟩
         (s', showRes (fun (r : (Nat × Nat × Option Bytes × Nat) × (List Buf × Buf)) =>
-            s!"n={r.1.1} {showBufs r.2.1} ctl={r.1.2.1}:{r.2.2.vis.length} flags={flagStr (r.1.2.2.2 != 0)}")
+            s!"n={r.1.1} {showBufs r.2.1} ctl={r.1.2.1}:{r.2.2.vis.length} flags={flagStr r.1.2.2.2}")
           (mapRecvMsg c (scatter bufs wr) ctlBuf))
       else (s, "bad-op")
   | ["recvm", p, len] =>
@@ -158,23 +161,213 @@ def lockStep (s : LState) (w : List String) : LState × String :=
     (s.setQ d (q.drop got.length), hexOf got ++ (if ended then " eof" else ""))
   | _ => (s, "bad-op")
 
+
+/-! ## lockstep datagram state -/
+
+structure GState where
+  named : Bool := true      -- udp (source addresses) vs unnamed unix datagram pair
+  tos : Bool := false       -- IP_RECVTOS enabled: every datagram carries one 24-byte control message
+  drv : Drv := .uring
+  buflen : Nat := 0
+  d0 : List Bytes := []     -- datagrams sent by a, not yet received by b
+  d1 : List Bytes := []
+
+def GState.q (s : GState) (d : Nat) : List Bytes := if d = 0 then s.d0 else s.d1
+def GState.setQ (s : GState) (d : Nat) (q : List Bytes) : GState := if d = 0 then { s with d0 := q } else { s with d1 := q }
+
+/-- completion of one datagram receive (kernel contract): source label, control length, flags -/
+def GState.comp (s : GState) (sender : Nat) (n : Nat) (trunc : Bool) : Comp :=
+  { n := n, nameLen := if s.named then 1 else 0,
+    name := (if sender = 0 then "a" else "b").toUTF8.toList,
+    ctlLen := if s.tos then 24 else 0, flags := if trunc then 0x20 else 0 }
+
+def showFrom (a : Option Bytes) : String :=
+  match a with
+  | none => "-"
+  | some bs => String.ofList (bs.map fun b => Char.ofNat b.toNat)
+
+def msgTail (ctlLen visLen flags : Nat) : String :=
+  s!" ctl={ctlLen}:{visLen} flags={flagStr flags}"
+
+open Compio.MultiStream in
+/-- the items of one multishot datagram drain, through the stream adapter and (io_uring) the
+`io_uring_recvmsg_out` parser -/
+def dmultiItems (s : GState) (sender : Nat) (kind : String) (clen : Nat) (ds : List Bytes) : List String :=
+  let fl : Fl := if kind = "multi" then .bytes else .msg
+  let cap := if kind = "multi" then s.buflen else payloadCap s.drv s.buflen clen
+  -- what the kernel puts into the buffer for datagram `d`
+  -- room for control data: io_uring registers `clen`; the fallback's `with_capacity(0)` keeps the whole buffer
+  let ctlCap := match s.drv with
+    | .uring => clen
+    | .poll => if clen = 0 then s.buflen else min clen s.buflen
+  let fit := decide (24 ≤ ctlCap)
+  let compOf (n : Nat) (tr : Bool) : Comp :=
+    let c := s.comp sender n tr
+    if s.tos ∧ ¬ fit then { c with ctlLen := 0, flags := c.flags + 8 } else c
+  let bufOf (d : Bytes) : Bytes × Nat :=
+    let (w, tr) := kDgram d cap
+    let c := compOf w.length tr
+    if kind = "multi" then (w, w.length)
+    else match s.drv with
+      | .uring =>
+        let name := if c.nameLen = 0 then [] else c.name.take c.nameLen
+        let b := Compio.RecvMsgOut.layout name (List.replicate c.ctlLen 0) w c.flags clen
+        (b, b.length)
+      | .poll =>
+        -- fusion build: `set_result` of the fallback op is not forwarded
+        match ((FallbackMulti.mk ((Buf.poolOf s.buflen).write w) 0).setResult true w.length).takeBuffer with
+        | .ok b => (b.vis, w.length)
+        | _ => ([], w.length)
+  let subs : List Sub := match s.drv with
+    | .uring => [.op (ds.map fun d => (⟨.ok (bufOf d).2, true, some (bufOf d).1⟩ : Cqe))]
+    | .poll => ds.map fun d => Sub.op [⟨.ok (bufOf d).2, false, some (bufOf d).1⟩]
+  let toks := (Stream.take (2 * ds.length + 2) (Stream.new fl subs)).1
+  let items := toks.filterMap fun t => match t with | .item b => some b | _ => none
+  (items.zip ds).map fun (b, d) =>
+    let (_, tr) := kDgram d cap
+    let c := compOf 0 tr
+    if kind = "multi" then hexOf b
+    else match s.drv with
+      | .uring =>
+        match Compio.RecvMsgOut.new b clen with
+        | .ok p =>
+          let data := match p.data with | .ok x => hexOf x | _ => "panic"
+          let addr := match p.addr with | .ok a => showFrom a | .panic => "panic" | .ub => "ub"
+          let anc := match p.ancillary with | .ok a => toString a.length | _ => "panic"
+          if kind = "frommulti" then s!"{data}/{addr}"
+          else s!"{data}/{addr}/{flagStr p.flags}/ctl={anc}"
+        | _ => "panic"
+      | .poll =>
+        if kind = "frommulti" then s!"{hexOf b}/{showFrom (intoAddr c)}"
+        else s!"{hexOf b}/{showFrom (intoAddr c)}/{flagStr c.flags}/ctl={c.ctlLen}"
+
+def dgramStep (s : GState) (w : List String) : GState × String :=
+  match w with
+  | "open" :: tp :: drv :: _ :: bl :: rest =>
+    ({ named := tp = "udp", tos := rest = ["tos"], drv := parseDrv drv, buflen := bl.toNat?.getD 0 }, "ok")
+  | ["dsend", p, _, ch] =>
+    match parseChunks ch with
+    | some cs => (s.setQ (pidx p) (s.q (pidx p) ++ [cs.flatten]), s!"sent {cs.flatten.length}")
+    | none => (s, "bad-op")
+  | [op, p, kind, arg] =>
+    let d := 1 - pidx p
+    match s.q d with
+    | [] => (s, "idle")
+    | dg :: rest =>
+      if op = "drecv" then
+        match parseShapes arg with
+        | none => (s, "bad-op")
+        | some bufs =>
+          let cap := totalCap bufs
+          let (wr, tr) := kDgram dg cap
+          let s' := s.setQ d rest
+          let rop : ROp := if kind = "plain" then .recv else if kind = "vec" then .recvVectored
+            else if kind = "from" then .recvFrom else if kind = "fromvec" then .recvFromVectored else .recvMsg
+          let c := s.comp d (compLen rop s.drv wr.length cap) tr
+          if kind = "plain" then
+            match bufs with
+            | [b] => (s', showRes (fun (r : Nat × Buf) => s!"n={r.1} {showBufs [r.2]}") (mapRecv c.n (b.write wr)))
+            | _ => (s, "bad-op")
+          else if kind = "vec" then
+            (s', showRes (fun (r : Nat × List Buf) => s!"n={r.1} {showBufs r.2}") (mapRecvVectored c.n (scatter bufs wr)))
+          else if kind = "from" then
+            match bufs with
+            | [b] => (s', showRes (fun (r : (Nat × Option Bytes) × Buf) => s!"n={r.1.1} {showBufs [r.2]} from={showFrom r.1.2}")
+                (mapRecvFrom c (b.write wr)))
+            | _ => (s, "bad-op")
+          else if kind = "fromvec" then
+            (s', showRes (fun (r : (Nat × Option Bytes) × List Buf) => s!"n={r.1.1} {showBufs r.2} from={showFrom r.1.2}")
+              (mapRecvFromVectored c (scatter bufs wr)))
+          else
+            (s', showRes (fun (r : (Nat × Nat × Option Bytes × Nat) × (List Buf × Buf)) =>
+                s!"n={r.1.1} {showBufs r.2.1} from={showFrom r.1.2.2.1}" ++ msgTail r.1.2.1 r.2.2.vis.length r.1.2.2.2)
+              (mapRecvMsg c (scatter bufs wr) ctlBuf))
+      else if op = "drecvm" then
+        let len := arg.toNat?.getD 0
+        let cap := managedCap s.buflen len
+        let (wr, tr) := kDgram dg cap
+        let c := s.comp d wr.length tr
+        let buf := some (managedBuf s.drv s.buflen len wr)
+        let s' := s.setQ d rest
+        let bad (r : Res Unit) : String := match r with | .panic => "panic" | _ => "ub"
+        if kind = "managed" then
+          (s', match takeBuffer c.n buf with
+            | .none => "none" | .some b => s!"some {hexOf b.vis}" | .noBuffer => "err:UnexpectedEof" | .bad r => bad r)
+        else if kind = "frommanaged" then
+          (s', match takeBufferFrom c buf with
+            | .none => "none" | .some (b, a) => s!"some {hexOf b.vis} from={showFrom a}"
+            | .noBuffer => "err:UnexpectedEof" | .bad r => bad r)
+        else
+          (s', match takeBufferMsg c buf ctlBuf with
+            | .none => "none"
+            | .some (b, ctl, a, f) => s!"some {hexOf b.vis} from={showFrom a} ctl={ctl.vis.length} flags={flagStr f}"
+            | .noBuffer => "err:UnexpectedEof" | .bad r => bad r)
+      else if op = "dmulti" then
+        let clen := arg.toNat?.getD 0
+        (s.setQ d [], ";".intercalate (dmultiItems s d kind clen (dg :: rest)))
+      else (s, "bad-op")
+  | _ => (s, "bad-op")
+
+
+/-! ## concurrent stream cases: the receiver's stream is the concatenation of the sender's submissions -/
+
+def genByte (seed d i : Nat) : UInt8 := UInt8.ofNat ((i * 31 + (i / 256) * 7 + seed + d * 101) % 256)
+
+/-- FNV-1a over the `n` generated bytes from stream offset `i` on -/
+def fnvGen (seed d : Nat) : Nat → Nat → UInt64 → UInt64
+  | 0, _, h => h
+  | n + 1, i, h => fnvGen seed d n (i + 1) ((h ^^^ (genByte seed d i).toUInt64) * 0x100000001b3)
+
+def hex16 (v : UInt64) : String :=
+  String.ofList ((List.range 16).map fun k => hexDigit ((v.toNat / 16 ^ (15 - k)) % 16))
+
+/-- sizes of the chunks of a `kind:n+n,kind:n` specification, in submission order -/
+def specSizes (s : String) : List Nat :=
+  if s = "-" then [] else
+  (s.splitOn ",").flatMap fun it =>
+    match it.splitOn ":" with
+    | [_, ns] => (ns.splitOn "+").map fun n => n.toNat?.getD 0
+    | _ => []
+
+/-- what the peer receives: every chunk appended to the stream in order, then end of stream -/
+def concDir (name : String) (seed d : Nat) (sizes : List Nat) : String :=
+  let (len, h) := sizes.foldl (fun (acc : Nat × UInt64) n => (acc.1 + n, fnvGen seed d n acc.1 acc.2)) (0, 0xcbf29ce484222325)
+  s!"{name} {len} {hex16 h} eof"
+
+def concLine (w : List String) : String :=
+  match w with
+  | "conc" :: _ :: _ :: _ :: _ :: seed :: _ :: rest =>
+    let seed := seed.toNat?.getD 0
+    let get (k : String) : String := ((rest.find? (·.startsWith k)).map fun x => (x.drop k.length).toString).getD "-"
+    concDir "a>b" seed 0 (specSizes (get "SA=")) ++ " | " ++ concDir "b>a" seed 1 (specSizes (get "SB="))
+  | _ => "bad-op"
+
 /-! ## dispatch -/
 
 structure DState where
   fam : String := ""
   lock : LState := {}
+  dg : GState := {}
 
 def step (st : DState) (line : String) : DState × String :=
   if line.startsWith "#case" then ({}, line.trimAscii.toString) else
   let w := words line
   match w with
-  | "open" :: _ =>
-    let (l, o) := lockStep {} w
-    ({ fam := "open", lock := l }, o)
+  | "conc" :: _ => ({ fam := "conc" }, concLine w)
+  | "open" :: tp :: _ =>
+    if tp = "udp" ∨ tp = "udg" then
+      let (g, o) := dgramStep {} w
+      ({ fam := "dgram", dg := g }, o)
+    else
+      let (l, o) := lockStep {} w
+      ({ fam := "open", lock := l }, o)
   | _ =>
     if st.fam = "open" then
       let (l, o) := lockStep st.lock w
       ({ st with lock := l }, o)
+    else if st.fam = "dgram" then
+      let (g, o) := dgramStep st.dg w
+      ({ st with dg := g }, o)
     else (st, "bad-op")
 
 end C14
